@@ -13,7 +13,8 @@ EXPLANATION = (
     "through validate(|epoch gap|, dist_in_2r(last predicted boxes of the two tracks)) == true (conjunction); (R20.4) "
     "dist_in_2r and too_far measure the centre distance between the two boxes against the sum of both bounding radii; "
     "(R20.6) who-may-write: the constraint table is mutated only by add_constraints (and helpers private to it), the "
-    "builder hands its whole input to it.")
+    "builder hands its whole input to it."
+    ' (R20.7) the batch trackers judge admission on the state the merge lands on: predict waits for the previous batch before advancing epochs and querying distances (monitor protocol shared with C06).')
 NOT_DECIDED = ["tracker-level equivalence with/without non-binding constraints (two-run comparison)",
                "numeric value of the centre distance"]
 ASSUMPTIONS = ["std sort_by is stable and dedup_by keeps the first of equal runs", "rustc nightly MIR construction"]
@@ -33,6 +34,12 @@ def run(ctx):
     ctx.rule('R20.3i', '(shared with C03) idle bound')
     ctx.floor('R20.3', T.rule_compatible(ctx, 'R20.3s', 'R20.3i', 'R20.3'), 6)
     r4(ctx)
+    # batch trackers: admission is judged against the track the detection is then attached to - the previous batch is
+    # finished (merged) before the distances of the next one are computed (monitor protocol, shared with C06 / C05)
+    from props import C06
+    ctx.rule('R20.7', 'batch trackers judge admission on the stored state the merge lands on: predict waits for the previous '
+                      'batch before advancing epochs and querying distances')
+    ctx.floor('R20.7', C06.protocol(ctx, 'R20.7'), 10)
 
 
 def elem_roles(F):
